@@ -84,6 +84,8 @@ type Exec struct {
 
 	writeLog   []*Cell // cells written (when tracking)
 	trackWrite bool
+	released   map[interface{}]bool // memory handed to a sync.Pool by the tracked call (C18)
+	poolUse    int                  // functions that returned memory they had already handed to a sync.Pool
 	mapWrites  []*Map
 	notes      []string
 	lastModel  map[string]*big.Int
@@ -745,6 +747,19 @@ func (x *Exec) visit(fr *frame, instr ssa.Instruction) cont {
 				res[i] = x.get(fr, r)
 			}
 			fr.result = res
+		}
+		if x.trackWrite && len(x.released) > 0 && fr.result != nil {
+			// use after release: a function returns memory it has already given back to a sync.Pool (another
+			// goroutine may obtain and overwrite it while the caller still reads it)
+			got := map[interface{}]bool{}
+			x.collectMutable(fr.result, got, map[interface{}]bool{})
+			for k := range got {
+				if x.released[k] {
+					x.poolUse++
+					x.notes = append(x.notes, "a function returns memory it has already handed to a sync.Pool: "+fr.fn.String())
+					break
+				}
+			}
 		}
 		return kReturn
 	case *ssa.RunDefers:
